@@ -188,6 +188,14 @@ Definition auth_safe (a : auth_input) : bool :=
   (match a_name a with Some n => query_safe n | None => true end) &&
   (match a_signed a with Some (_, k, v) => query_safe k && query_safe v | None => true end).
 
+(* weaker requirement matching the crate's documentation ("authorizer name and token key name must be
+   valid URI-encoded values"): name and key are themselves well-formed query text without & and =
+   (escapes allowed); the token value, documented as arbitrary, must still be safe as it is *)
+Definition uri_encoded (x : bytes) : bool := query_wf x && negb (contains AMP x) && negb (contains EQS x).
+Definition auth_encoded (a : auth_input) : bool :=
+  (match a_name a with Some n => uri_encoded n | None => true end) &&
+  (match a_signed a with Some (_, k, v) => uri_encoded k && query_safe v | None => true end).
+
 (* the configured signature [sg] is the raw base64 text [s] or its percent-encoding *)
 Definition sig_is (a : auth_input) (s : bytes) : Prop :=
   forall sg k v, a_signed a = Some (sg, k, v) -> base64 s = true /\ (sg = s \/ sg = enc s).
